@@ -23,6 +23,15 @@ loadstate_t iobuffer::load_buffer(FILE *fin, bool ispadding)
 {
   u32_t load = fread(b, 1, sum, fin);
   bool readover = feof(fin);
+  if (!ispadding && !readover && load == sum)
+  {
+    // a read that fills the buffer exactly does not set the EOF flag: look one byte ahead
+    int c = fgetc(fin);
+    if (c == EOF)
+      readover = true;
+    else
+      ungetc(c, fin);
+  }
   tail = load & 0xf;
   total = load >> 4;
   now = 0;
@@ -33,7 +42,7 @@ loadstate_t iobuffer::load_buffer(FILE *fin, bool ispadding)
     isfinal = true;
     return FINAL;
   }
-  if ((!ispadding) && readover)
+  if ((!ispadding) && readover && load != 0)
   {
     isfinal = true;
     return FINAL;
